@@ -243,7 +243,7 @@ func (r *Report) finishProp(prop string, known []knownFinding, unclaimed []uncla
 			suffix = " no-failing-input-found"
 		}
 		fmt.Printf("VIOLATION property=%s replay=%s%s\n", prop, path, suffix)
-		fmt.Printf("  obligation %s [%s] at %s: %s\n", o.Name, o.Status, o.Pos, trimLong(o.Output, 200))
+		fmt.Printf("  obligation %s [%s] at %s: %s %s\n", o.Name, o.Status, o.Pos, trimLong(o.Output, 200), o.smtPath)
 		exit = 1
 	}
 	// evidence
